@@ -41,6 +41,8 @@ type SchemeSpec struct {
 	Model string     `json:"model"`
 	Fg    *ColorSpec `json:"fg"`
 	Bg    *ColorSpec `json:"bg"`
+	// Partial: "fg" | "bg" | "model" | "zero" - leave only that field (or none) set; used by op "poke"
+	Partial string `json:"partial"`
 }
 
 type Job struct {
@@ -145,7 +147,18 @@ func mkScheme(s *SchemeSpec) barcode.ColorScheme {
 	case "s32":
 		return barcode.ColorScheme32
 	}
-	return barcode.ColorScheme{Model: mkModel(s.Model), Foreground: mkColor(s.Fg), Background: mkColor(s.Bg)}
+	cs := barcode.ColorScheme{Model: mkModel(s.Model), Foreground: mkColor(s.Fg), Background: mkColor(s.Bg)}
+	switch s.Partial { // incomplete schemes (op "poke" only): a caller's mistake whose effect must stay with that call
+	case "fg":
+		cs.Model, cs.Background = nil, nil
+	case "bg":
+		cs.Model, cs.Foreground = nil, nil
+	case "model":
+		cs.Foreground, cs.Background = nil, nil
+	case "zero":
+		cs = barcode.ColorScheme{}
+	}
+	return cs
 }
 
 // synthetic source barcode (for Scale): arbitrary matrix, optional interfaces.
@@ -167,8 +180,10 @@ func (s *synthBase) At(x, y int) color.Color {
 	}
 	return s.bg
 }
-func (s *synthBase) Metadata() barcode.Metadata { return barcode.Metadata{CodeKind: "synthetic", Dimensions: byte(s.dim)} }
-func (s *synthBase) Content() string            { return "synthetic-content" }
+func (s *synthBase) Metadata() barcode.Metadata {
+	return barcode.Metadata{CodeKind: "synthetic", Dimensions: byte(s.dim)}
+}
+func (s *synthBase) Content() string { return "synthetic-content" }
 
 type synthScheme struct{ synthBase }
 
@@ -192,6 +207,7 @@ type handle struct {
 var (
 	handles  = map[int]handle{}
 	buffers  = map[int][]byte{}
+	guards   = map[int][]byte{} // the whole allocation behind an aztec payload (payload + guard bytes)
 	bitlists = map[int]*utils.BitList{}
 	fields   = map[string]*utils.GaloisField{}
 	rsencs   = map[int]*utils.ReedSolomonEncoder{}
@@ -249,11 +265,19 @@ func doEncode(j *Job, evIdx int) (barcode.Barcode, error, barcode.ColorScheme) {
 			bc, err = datamatrix.Encode(s)
 		}
 	case "aztec":
-		buf := toBytes(j.Content)
+		// the payload is handed over as a slice WITH spare capacity behind it (as a caller that packs records into one buffer does):
+		// the 24 guard bytes behind the argument belong to the caller as well and must come back untouched
+		whole := make([]byte, len(j.Content)+24)
+		for i := range whole {
+			whole[i] = 0xA5
+		}
+		copy(whole, toBytes(j.Content))
+		buf := whole[:len(j.Content)]
 		if j.Content == nil && p(j, 2) == 1 {
 			buf = nil
 		}
 		buffers[evIdx] = buf
+		guards[evIdx] = whole
 		if wc {
 			bc, err = aztec.EncodeWithColor(buf, p(j, 0), p(j, 1), sch)
 		} else {
@@ -451,10 +475,24 @@ func run(j *Job, evIdx int) map[string]interface{} {
 				for i := 0; same && i < len(after); i++ {
 					same = after[i] == before[i]
 				}
+				if g, ok := guards[evIdx]; ok {
+					for i := len(before); same && i < len(g); i++ {
+						same = g[i] == 0xA5
+					}
+				}
 				res["inputsame"] = same
 			}
 			return res
 		})
+	case "poke":
+		// a call outside every property's domain (an incomplete colour scheme): made, its result dropped unobserved. What is judged
+		// are the calls AFTER it (history-freedom): whatever it does must not reach them.
+		guarded(func() map[string]interface{} {
+			defer func() { recover() }()
+			doEncode(j, evIdx)
+			return nil
+		})
+		return map[string]interface{}{"kind": "done"}
 	case "scale":
 		return guarded(func() map[string]interface{} {
 			src, ok := handles[j.Src]
